@@ -359,7 +359,23 @@ func (se *sinkEval) outputs(p *pwPath) (outs []string, at []token.Pos) {
 			continue
 		}
 		if o.Pkg().Path() == "fmt" && strings.HasPrefix(o.Name(), "Fprint") && len(c.Args) > 0 && se.isBuilder(p, stripIface(p.resolve(c.Args[0]))) {
-			outs, at = append(outs, "other"), append(at, pos)
+			// fmt.Fprint(bb, v) / fmt.Fprintf(bb, "<const>", v) write what fmt.Sprint / Sprintf of the value yield
+			k := "other"
+			va := -1
+			switch {
+			case o.Name() == "Fprint" && len(c.Args) == 2:
+				va = 1
+			case o.Name() == "Fprintf" && len(c.Args) == 3:
+				if _, isConst := p.constOf(c.Args[1]); isConst {
+					va = 2
+				}
+			}
+			if va > 0 {
+				if elems, ok := p.sliceElems(c.Args[va]); ok && len(elems) == 1 && se.origin(p, elems[0]) == "val" {
+					k = "sprint"
+				}
+			}
+			outs, at = append(outs, k), append(at, pos)
 			continue
 		}
 		if o.Pkg().Path() == "io" && o.Name() == "WriteString" && len(c.Args) == 2 && se.isBuilder(p, stripIface(p.resolve(c.Args[0]))) {
